@@ -27,6 +27,10 @@ CLAIMED['C05'] = ('exploration', 'deterministic simulation: seeded buffer geomet
     'Seeded search over ACL buffer length/count on both controllers x LE/BR-EDR x PDU length sequences (boundary family around k*F, 65531/65532/65535) in both directions x latency profiles, with legal re-fragmentation towards the receiving host and malformed fragment sequences (continuation without start, data beyond length, start over start, truncated start, stray continuation) injected between PDUs at host- and controller-side assemblers. Wire monitor on every host->controller ACL packet (length, PB flag, handle, in-flight<=count); receiver sees exactly the sent (cid,payload) sequence. ISO: every emitted fragment checked by an independent parser. Sampling, not proof.',
     'Trusted: the refragmenter keeps the 4-byte L2CAP header in the start fragment (conservative reading); fragment sizes >= 27; ISO path uses a scripted sink because the virtual controller ignores ISO data.', 'DESIGN.md §5 C05')
 
+CLAIMED['C06'] = ('exploration', 'deterministic simulation: seeded multi-device histories on the virtual link with latency, reference model of live connections',
+    'Seeded search over 2-5 full stacks on one LocalLink: advertise (public/random own address, legacy/extended per node, drawn payloads), scan (active/passive), connect (public/random), data on a test fixed channel, disconnect by either/both sides, an incoming connection while an outgoing one is pending, two centrals racing for one advertiser, connect to a silent address; BR/EDR connect/transfer/disconnect. Oracle: the caller gets the connection to the requested address in the central role, the peer reports exactly one connection with matching addresses, no third party sees anything, handles live and distinct, payloads delivered exactly once in order to that connection only, disconnection reported on both sides, scan reports carry the advertiser data byte for byte. Sampling, not proof.',
+    'Trusted: per-receiver FIFO air model; privacy off; scanning uses the legacy scan commands (the virtual controller implements no extended scan commands). Passive scanners are not required to see no scan responses.', 'DESIGN.md §5 C06')
+
 NOT_YET = {}
 
 
